@@ -80,6 +80,9 @@ def register_helpers(repo) -> None:  # type: ignore[no-untyped-def]
                         names_l.add(al.asname or al.name)
                     if al.name in {q.split(".")[-1] for q in achain}:
                         names_c.add(al.asname or al.name)
+    # (the normaliser strips the `_async` suffix from names before it looks at calls)
+    names_l |= {_strip_suffix(n) for n in names_l}
+    names_c |= {_strip_suffix(n) for n in names_c}
     if names_l:
         ALIST_NAMES.clear()
         ALIST_NAMES.update(names_l)
